@@ -205,6 +205,9 @@ func (t *tr) autoHelpers(fd *ast.FuncDecl) {
 			// fails there
 			t.errs, t.pending = t.errs[:nerr], t.pending[:npend]
 			u.failedHelper[name] = true
+			delete(u.emitted, name) // fn may have marked a plain function as emitted before the failure showed
+			delete(u.sigs, name)
+			delete(u.procs, name)
 			continue
 		}
 		t.pending = append(t.pending, "/- helper of "+caller+", translated on demand -/\n"+out+"\n")
@@ -213,7 +216,7 @@ func (t *tr) autoHelpers(fd *ast.FuncDecl) {
 }
 
 func supported(k kind) bool {
-	return k == kByte || k == kNat || k == kInt || k == kBool || k == kBytes || k == kRec || k == kRecList || k == kSet || k == kAbs || k == kOpt
+	return k == kByte || k == kNat || k == kInt || k == kBool || k == kBytes || k == kRec || k == kRecList || k == kSet || k == kAbs || k == kOpt || k == kMapList
 }
 
 // collectPaths finds the field paths p.f.g (of a supported type) rooted at one of the given outer variables.
@@ -249,7 +252,7 @@ func (t *tr) collectPaths(stmts []ast.Stmt, outer map[types.Object]bool) (paths 
 			}
 			k, _ := classify(t.typeOf(se))
 			r := rootOf(se)
-			if !supported(k) || r == nil || !outer[r] {
+			if !(supported(k) || (k == kErr && !t.f.stateful)) || r == nil || !outer[r] {
 				return true
 			}
 			src := t.pathKey(se)
@@ -298,6 +301,9 @@ func (t *tr) opaqueBinders(f *fctx, stmts []ast.Stmt, ops []opq, n ast.Node) {
 			np--
 		}
 		for i := 0; i < np; i++ {
+			if emptyStruct(sig.Params().At(i).Type()) {
+				continue // a token: no information
+			}
 			parts = append(parts, t.leanType(sig.Params().At(i).Type()))
 		}
 		if sig.Variadic() {
@@ -394,7 +400,14 @@ func (t *tr) blockBinders(f *fctx, stmts []ast.Stmt, fn string, n ast.Node) {
 		f.stepops[o.callee] = o
 		parts := []string{t.leanType(recvTy)}
 		for i := 0; i < sig.Params().Len(); i++ {
-			parts = append(parts, t.leanType(sig.Params().At(i).Type()))
+			if emptyStruct(sig.Params().At(i).Type()) {
+				continue
+			}
+			pt := t.leanType(sig.Params().At(i).Type())
+			if strings.Contains(pt, " ") {
+				pt = "(" + pt + ")"
+			}
+			parts = append(parts, pt)
 		}
 		var rs []string
 		for i := 0; i < sig.Results().Len(); i++ {
@@ -582,9 +595,13 @@ func (t *tr) fn(fd *ast.FuncDecl) string {
 	f.stateful = u.stateful[fd.Name.Name]
 	f.goSig, _ = u.info.Defs[fd.Name].Type().(*types.Signature)
 	f.patterns = u.patternsOf(fd.Name.Name)
+	f.fnName = fd.Name.Name
 	f.everAssigned = map[types.Object]bool{}
 	if fd.Body != nil {
 		f.everAssigned = t.assignedObjs(fd.Body.List)
+		if f.goSig != nil {
+			t.scanNils(fd.Body, f.goSig.Results())
+		}
 	}
 	// canonical roots: the receiver is r, the i-th parameter a<i> (positions count unnamed parameters too)
 	if fd.Recv != nil {
@@ -614,6 +631,21 @@ func (t *tr) fn(fd *ast.FuncDecl) string {
 	}
 	for _, an := range u.absNames() {
 		f.binders = append(f.binders, binder{an, "Type"})
+	}
+	if f.goSig != nil && f.goSig.Recv() != nil {
+		rt := f.goSig.Recv().Type()
+		if p, ok := rt.(*types.Pointer); ok {
+			rt = p.Elem()
+		}
+		if n, ok := rt.(*types.Named); ok && n.TypeParams() != nil {
+			for i := 0; i < n.TypeParams().Len(); i++ {
+				pn := n.TypeParams().At(i).Obj().Name()
+				if !f.hasBinder(pn) {
+					f.binders = append(f.binders, binder{pn, "Type"})
+					f.binders = append(f.binders, binder{pn + "_zero", pn}) // the zero value of the type parameter
+				}
+			}
+		}
 	}
 	// external stateful objects: an abstract state type per object, the callee as a function on it
 	var externVars []*types.Var
@@ -736,7 +768,10 @@ func (t *tr) fn(fd *ast.FuncDecl) string {
 			if _, isSlice := obj.Type().Underlying().(*types.Slice); isSlice && k == kBytes {
 				sliceParams = append(sliceParams, n)
 			}
-			continue
+			if k != kAbs {
+				continue
+			}
+			// an abstract object: its fields that are read are further (independent) abstract parameters
 		}
 		for _, p := range paths {
 			if proots[p] == obj {
@@ -806,7 +841,7 @@ func (t *tr) fn(fd *ast.FuncDecl) string {
 		plain = false
 	} else if res != nil && len(res.List) > 0 {
 		sig := u.info.Defs[fd.Name].Type().(*types.Signature)
-		resTy = t.leanResult(sig.Results())
+		resTy = t.leanResult(t.dynResults(fd, sig.Results()))
 		n := sig.Results().Len()
 		if k, _ := classify(sig.Results().At(n - 1).Type()); k == kErr {
 			f.optional = true
@@ -1126,6 +1161,77 @@ func firstLine(s string) string {
 func (t *tr) absNilBinders(f *fctx, stmts []ast.Stmt) {
 	for _, s := range stmts {
 		ast.Inspect(s, func(nd ast.Node) bool {
+			if es, ok := nd.(*ast.ExprStmt); ok && t.isIgnored(es) {
+				return false // dropped monitoring calls do not contribute
+			}
+			if c, ok := nd.(*ast.CallExpr); ok && len(c.Args) == 2 {
+				for _, o := range t.u.read[f.fnName] {
+					if t.ck(c) == o.callee {
+						f.readops[o.callee] = o
+						if !f.hasBinder(leanName(o.name)) {
+							f.binders = append(f.binders, binder{leanName(o.name), t.leanType(t.typeOf(c.Args[0])) + " → Int → Option Bytes"})
+						}
+					}
+				}
+			}
+			if ta, ok := nd.(*ast.TypeAssertExpr); ok && ta.Type != nil {
+				// v, ok := x.(T) on abstract types: the abstract partial cast <X>_as_<T>
+				if k1, _ := classify(t.typeOf(ta.X)); k1 == kAbs {
+					if k2, _ := classify(t.typeOf(ta.Type)); k2 == kAbs {
+						a1, _ := absTypeOf(t.typeOf(ta.X))
+						a2, _ := absTypeOf(t.typeOf(ta.Type))
+						if !f.hasBinder(a1 + "_as_" + a2) {
+							f.binders = append(f.binders, binder{a1 + "_as_" + a2, a1 + " → " + a2 + " × Bool"})
+						}
+					}
+				}
+			}
+			if cl, ok := nd.(*ast.CompositeLit); ok {
+				if k, _ := classify(t.typeOf(cl)); k == kAbs {
+					an, _ := absTypeOf(t.typeOf(cl))
+					switch u := t.typeOf(cl).Underlying().(type) {
+					case *types.Map:
+						if len(cl.Elts) == 0 && !f.hasBinder(an+"_empty") {
+							f.binders = append(f.binders, binder{an + "_empty", an}) // map[K]V{}: the empty abstract map
+						}
+					case *types.Struct:
+						// T{f: e, …} of an abstract struct type: the abstract constructor applied to ALL fields in declaration order
+						if len(cl.Elts) == u.NumFields() && !f.hasBinder(an+"_mk") {
+							var ps []string
+							okAll := true
+							for i := 0; i < u.NumFields(); i++ {
+								if kf, _ := classify(u.Field(i).Type()); !supported(kf) {
+									okAll = false
+								}
+								ft := t.leanType(u.Field(i).Type())
+								if strings.Contains(ft, " ") {
+									ft = "(" + ft + ")"
+								}
+								ps = append(ps, ft)
+							}
+							if okAll {
+								f.binders = append(f.binders, binder{an + "_mk", strings.Join(append(ps, an), " → ")})
+							}
+						}
+					}
+				}
+			}
+			if as, ok := nd.(*ast.AssignStmt); ok && as.Tok == token.ASSIGN && len(as.Lhs) == 1 && len(as.Rhs) == 1 {
+				if ie, ok := as.Lhs[0].(*ast.IndexExpr); ok {
+					if k, _ := classify(t.typeOf(ie.X)); k == kAbs {
+						if mt, isMap := t.typeOf(ie.X).Underlying().(*types.Map); isMap {
+							an, _ := absTypeOf(t.typeOf(ie.X))
+							vt := t.leanType(t.typeOf(as.Rhs[0]))
+							if !f.hasBinder(an+"_set") && !strings.Contains(vt, "UNSUPPORTED") {
+								if strings.Contains(vt, " ") {
+									vt = "(" + vt + ")"
+								}
+								f.binders = append(f.binders, binder{an + "_set", an + " → " + t.leanType(mt.Key()) + " → " + vt + " → " + an})
+							}
+						}
+					}
+				}
+			}
 			if ie, ok := nd.(*ast.IndexExpr); ok {
 				// m[k] on an abstract map: only the comma-ok presence test `_, ok := m[k]` is translated: <Type>_has
 				if k, _ := classify(t.typeOf(ie.X)); k == kAbs {
@@ -1137,12 +1243,50 @@ func (t *tr) absNilBinders(f *fctx, stmts []ast.Stmt) {
 					}
 				}
 			}
+			if se, ok := nd.(*ast.SelectorExpr); ok {
+				if sel, ok := t.u.info.Selections[se]; ok && sel.Kind() == types.FieldVal {
+					if t.absLocalBase(se.X) {
+						if kb, _ := classify(t.typeOf(se.X)); kb == kAbs {
+							if kf, _ := classify(t.typeOf(se)); supported(kf) {
+								an, _ := absTypeOf(t.typeOf(se.X))
+								if !f.hasBinder(an + "_" + se.Sel.Name) {
+									f.binders = append(f.binders, binder{an + "_" + se.Sel.Name, an + " → " + t.leanType(t.typeOf(se))})
+								}
+							}
+						}
+					}
+				}
+			}
 			be, ok := nd.(*ast.BinaryExpr)
 			if !ok || (be.Op != token.EQL && be.Op != token.NEQ) {
 				return true
 			}
 			for _, pr := range [][2]ast.Expr{{be.X, be.Y}, {be.Y, be.X}} {
 				if id, ok := pr[1].(*ast.Ident); ok && id.Name == "nil" {
+					if k, _ := classify(t.typeOf(pr[0])); k == kRecList {
+						// nil-ness of a slice field of the receiver / a parameter at entry: an abstract Bool (a List cannot tell nil from empty);
+						// only before the field is assigned
+						if se, ok := pr[0].(*ast.SelectorExpr); ok && t.isFieldPath(se) {
+							key := t.pathKey(se)
+							early := false
+							for _, s2 := range stmts {
+								ast.Inspect(s2, func(n2 ast.Node) bool {
+									if as, ok := n2.(*ast.AssignStmt); ok && as.Pos() < be.Pos() {
+										for _, l := range as.Lhs {
+											if ls, ok := l.(*ast.SelectorExpr); ok && t.isFieldPath(ls) && t.pathKey(ls) == key {
+												early = true
+											}
+										}
+									}
+									return true
+								})
+							}
+							bn := pathName(key) + "_isNil"
+							if !early && !f.hasBinder(bn) {
+								f.binders = append(f.binders, binder{bn, "Bool"})
+							}
+						}
+					}
 					if k, _ := classify(t.typeOf(pr[0])); k == kAbs {
 						an, _ := absTypeOf(t.typeOf(pr[0]))
 						if !f.hasBinder(an + "_isNil") {
@@ -1190,4 +1334,97 @@ func (t *tr) mapCalleePath(c *ast.CallExpr, src string) string {
 		return key
 	}
 	return key + "." + rest
+}
+
+// absLocalBase: an expression denoting an abstract object that is not (a field path of) a parameter / the receiver: the result
+// of a call, or a local variable (a loop variable, a value returned by an iterator).  Its fields are abstract projections.
+func (t *tr) absLocalBase(e ast.Expr) bool {
+	switch x := e.(type) {
+	case *ast.CallExpr:
+		return true
+	case *ast.ParenExpr:
+		return t.absLocalBase(x.X)
+	case *ast.Ident:
+		o := t.objOf(x)
+		if o == nil {
+			return false
+		}
+		if _, isParam := t.f.rootCanon[o]; isParam {
+			return false
+		}
+		_, isVar := o.(*types.Var)
+		return isVar && o.Parent() != t.u.pkg.Scope()
+	}
+	return false
+}
+
+// dynResults: a result declared as the empty interface (`any`) whose every return statement hands out a value of one and the
+// same static type T (or nil together with an error) is typed T
+func (t *tr) dynResults(fd *ast.FuncDecl, res *types.Tuple) *types.Tuple {
+	var vars []*types.Var
+	changed := false
+	for i := 0; i < res.Len(); i++ {
+		v := res.At(i)
+		if _, ok := v.Type().Underlying().(*types.Interface); ok && !isErrorType(v.Type()) {
+			var dyn types.Type
+			okAll := true
+			ast.Inspect(fd.Body, func(nd ast.Node) bool {
+				if _, isLit := nd.(*ast.FuncLit); isLit {
+					return false
+				}
+				r, ok := nd.(*ast.ReturnStmt)
+				if ok && len(r.Results) == 1 && res.Len() > 1 {
+					// return g(…): the callee's tuple
+					if tup, isTup := t.typeOf(r.Results[0]).(*types.Tuple); isTup && tup.Len() == res.Len() {
+						ty := tup.At(i).Type()
+						if dyn == nil {
+							dyn = ty
+						} else if !types.Identical(dyn, ty) {
+							okAll = false
+						}
+						return true
+					}
+				}
+				if !ok || len(r.Results) != res.Len() {
+					if ok {
+						okAll = false
+					}
+					return true
+				}
+				if id, isId := r.Results[i].(*ast.Ident); isId && id.Name == "nil" {
+					return true
+				}
+				ty := t.typeOf(r.Results[i])
+				if ty == nil {
+					okAll = false
+				} else if dyn == nil {
+					dyn = ty
+				} else if !types.Identical(dyn, ty) {
+					okAll = false
+				}
+				return true
+			})
+			if _, dynIsIface := func() (struct{}, bool) {
+				if dyn == nil {
+					return struct{}{}, true
+				}
+				_, is := dyn.Underlying().(*types.Interface)
+				return struct{}{}, is
+			}(); okAll && dyn != nil && !dynIsIface {
+				vars = append(vars, types.NewVar(v.Pos(), v.Pkg(), v.Name(), dyn))
+				changed = true
+				continue
+			}
+		}
+		vars = append(vars, v)
+	}
+	if !changed {
+		return res
+	}
+	return types.NewTuple(vars...)
+}
+
+func isErrorType(ty types.Type) bool {
+	n, ok := ty.(*types.Named)
+	return ok && n.Obj().Pkg() == nil && n.Obj().Name() == "error"
 }
